@@ -104,7 +104,7 @@ Proof.
   - intros n f' r F R.
     assert (E1 : nth_error (map ck_of fs') n = Some (ck_of f')) by (rewrite nth_error_map, F; reflexivity).
     rewrite E, nth_error_map in E1. destruct (nth_error fs n) as [f|] eqn:F0; simpl in E1; [|discriminate].
-    inversion E1 as [E2]. rewrite <- E2. eapply H; eauto.
+    assert (E2 : ck_of f' = ck_of f) by congruence. rewrite E2. eapply H; eauto.
 Qed.
 
 Lemma RInv_upd o fs rs g h k :
@@ -113,7 +113,7 @@ Lemma RInv_upd o fs rs g h k :
   RInv o (upd g h fs) (upd g k rs).
 Proof.
   intros [L H] HK. split; [rewrite !length_upd; auto|].
-  intros n f r F R. rewrite nth_error_upd in F, R.
+  intros n f r F R. rewrite nth_error_upd in F. rewrite nth_error_upd in R.
   destruct (Nat.eqb_spec n g) as [E|E].
   - subst n. destruct (nth_error fs g) as [f0|] eqn:F0; simpl in F; [|discriminate].
     destruct (nth_error rs g) as [r0|] eqn:R0; simpl in R; [|discriminate].
@@ -199,7 +199,7 @@ Proof.
       intros f' r F' _ [A [B C]]. rewrite E in F'; inversion F'; subst f'.
       unfold rinv in *; simpl in *. rewrite ES in *.
       assert (FA : f_act f = false).
-      { destruct (f_act f); auto. simpl in T. discriminate. }
+      { destruct (f_act f); auto; simpl in T; discriminate. }
       rewrite FA in *. repeat split; intros; try discriminate. apply built_release; auto.
     + (* SReleased *) apply RInv_updf; auto.
       intros f' r F' _ [A [B C]]; unfold rinv in *; simpl in *. rewrite ES in *. repeat split; auto; discriminate.
